@@ -27,8 +27,8 @@ type c17result struct {
 
 func c17Binary() string { return VerifDir() + "/.build/c17.test" }
 
-func c17Exec(args []string, out string, limit time.Duration) (*c17result, error) {
-	cmd := exec.Command(c17Binary(), append([]string{"-test.run", "TestC17", "-test.timeout", fmt.Sprintf("%ds", int(limit.Seconds())+60), "-out", out}, args...)...)
+func c17Exec(test string, args []string, out string, limit time.Duration) (*c17result, error) {
+	cmd := exec.Command(c17Binary(), append([]string{"-test.run", "^" + test + "$", "-test.timeout", fmt.Sprintf("%ds", int(limit.Seconds())+60), "-out", out}, args...)...)
 	// The child enforces its own deadline (-test.timeout); tell the worker's
 	// watchdog that waiting for it is not a hang.
 	stop := make(chan struct{})
@@ -70,41 +70,57 @@ func init() {
 			"EVERY interleaving, at call granularity, of S subscribers' [Subscribe, Unsubscribe] programs, P publishers' [Publish(DocChanged) x m] programs and up to E clock events (advance by the batch window / by the publish timeout) " +
 			"for (S,P,m,E) in {(1,1,1,2),(1,1,3,2),(2,1,1,2),(2,1,2,2),(1,2,1,2),(1,2,2,2),(2,2,1,1),(2,2,2,1)}, m = publishes per publisher (the batch publisher keeps at most two pending events per actor, so 3 by one actor and 2+1 by two reach its de-duplication; thorough up to 3 subscribers / 3 publishers / 3 publishes / 3 clock events), times every subset of stalled consumers (never read until the end; self-prune threshold lowered to 2 failures); " +
 			"oracle: a subscriber whose Subscribe returned before a Publish was called and that stays subscribed for window + k*timeout of virtual time afterwards reads a notification of that actor (stalled consumer: any notification read after the publish) or sees its channel closed; " +
-			"nothing published after its Unsubscribe is read; ClientIDs is empty once all have unsubscribed and no goroutine stays blocked when the bubble ends (synctest's own check); no panic; non-trivial = sequences with >= 3 programs",
-		Assume: []string{"interleaving is at the granularity of the three API calls; preemption INSIDE Subscribe/Unsubscribe/Publish (cmap shard locks) is not explored here",
+			"nothing published after its Unsubscribe is read; ClientIDs is empty once all have unsubscribed and no goroutine stays blocked when the bubble ends (synctest's own check); no panic; non-trivial = sequences with >= 3 programs; " +
+			"(b) concurrent calls: Subscribe/Unsubscribe/Publish (and a clock thread that lets the batch publisher flush) as threads of the cooperative scheduler, one execution per synctest bubble; scheduling points = every exported pkg/cmap operation (verif hook; an operation running a callback under its shard lock is one point) and thread start/end; " +
+			"7 scenarios of 2-3 threads (first-in / last-out races, re-subscribe, pending batch), ALL schedules with at most 3 preemptions (thorough: unbounded, plus 3 larger scenarios); " +
+			"oracle: no panic, no deadlock, a watcher whose Subscribe returned before a Publish was called and that has not asked to leave is told within 3 windows or its stream is closed, ClientIDs empty and every channel closed after everybody left, no goroutine left blocked (a batch publisher of a document nobody watches)",
+		Assume: []string{"part (a): interleaving is at the granularity of the three API calls; part (b): at the granularity of cmap operations (each holds its shard lock for its whole duration, so it is atomic); the subscription mutex and the batch publisher mutex are not scheduling points (no code path holds one of them across a cmap operation by another thread)",
 			"a goroutine waiting for a sync.Mutex is not durably blocked for synctest: before a stalled consumer is unsubscribed the pending timed sends to it are allowed to time out first (see the harness comment)"},
 		QuickBudget: 120 * time.Second,
 		Run: func(env *Env) *Result {
 			res := NewResult()
 			out := filepath.Join(os.TempDir(), fmt.Sprintf("c17-%d-%d.json", os.Getpid(), env.Shard))
 			defer os.Remove(out)
-			budget := time.Until(env.Deadline)
-			r, err := c17Exec([]string{"-tier", env.Tier, "-shard", fmt.Sprint(env.Shard), "-shards", fmt.Sprint(env.NShards), "-budget", fmt.Sprintf("%.0f", budget.Seconds())}, out, budget)
-			if err != nil {
-				if strings.Contains(err.Error(), "blocked goroutines remain") {
-					res.AddFound(Found{Property: "C17", Kind: "goroutine-leak", Sig: "goroutine-leak", Detail: err.Error(), Core: "goroutine-leak|bubble ended with blocked goroutines"})
+			// (a) call-granular interleavings with virtual time, (b) interleavings of
+			// the calls' internal steps under the cooperative scheduler
+			for _, test := range []string{"TestC17", "TestC17S"} {
+				budget := time.Until(env.Deadline)
+				r, err := c17Exec(test, []string{"-tier", env.Tier, "-shard", fmt.Sprint(env.Shard), "-shards", fmt.Sprint(env.NShards), "-budget", fmt.Sprintf("%.0f", budget.Seconds())}, out, budget)
+				if err != nil {
+					if strings.Contains(err.Error(), "blocked goroutines remain") {
+						res.AddFound(Found{Property: "C17", Kind: "goroutine-leak", Sig: "goroutine-leak", Detail: err.Error(), Core: "goroutine-leak|bubble ended with blocked goroutines"})
+						return res
+					}
+					res.HarnessErr = append(res.HarnessErr, err.Error())
 					return res
 				}
-				res.HarnessErr = append(res.HarnessErr, err.Error())
-				return res
-			}
-			res.Evaluations, res.Nontrivial = r.Evaluations, r.Nontrivial
-			for k, v := range r.Outcomes {
-				res.Outcomes[k] = v
-			}
-			for _, s := range r.Samples {
-				res.Sample(s)
-			}
-			res.Incomplete, res.Completed = r.Incomplete, r.Completed
-			for _, f := range r.Found {
-				res.AddFound(Found{Property: "C17", Kind: f.Kind, Sig: f.Kind, Detail: f.Detail, Case: json.RawMessage(f.Case), Core: f.Core})
+				res.Evaluations += r.Evaluations
+				res.Nontrivial += r.Nontrivial
+				for k, v := range r.Outcomes {
+					res.Outcomes[k] += v
+				}
+				for _, s := range r.Samples {
+					res.Sample(s)
+				}
+				res.Incomplete = append(res.Incomplete, r.Incomplete...)
+				res.Completed = append(res.Completed, r.Completed...)
+				for _, f := range r.Found {
+					res.AddFound(Found{Property: "C17", Kind: f.Kind, Sig: f.Kind, Detail: f.Detail, Case: json.RawMessage(f.Case), Core: f.Core})
+				}
+				if test == "TestC17S" {
+					res.Count("schedules_of_internal_steps", r.Evaluations)
+				}
 			}
 			return res
 		},
 		Reproduce: func(f *Found) (bool, error) {
 			out := filepath.Join(os.TempDir(), fmt.Sprintf("c17-repro-%d.json", os.Getpid()))
 			defer os.Remove(out)
-			r, err := c17Exec([]string{"-case", string(f.Case)}, out, time.Minute)
+			test := "TestC17"
+			if strings.Contains(string(f.Case), `"scenario"`) {
+				test = "TestC17S"
+			}
+			r, err := c17Exec(test, []string{"-case", string(f.Case)}, out, time.Minute)
 			if err != nil {
 				return false, err
 			}
